@@ -2,7 +2,7 @@
 import json, os, subprocess
 from lib import fw
 
-MODULES = ["SunriseVerif.Props.C17", "SunriseVerif.Props.C17Rate"]
+MODULES = ["SunriseVerif.Props.C17", "SunriseVerif.Props.C17Rate", "SunriseVerif.Props.TieGauge"]
 
 
 def features(f):
@@ -14,7 +14,7 @@ def features(f):
 def run(ctx):
     if not ctx.translate():
         return
-    ok = ctx.prove(MODULES)
+    ok = ctx.prove(MODULES, needs_gen=["KernelsTieGauge"])
     n = 1200 if ctx.thorough() else 30
     res = fw.corr(ctx, "gauge", n)
     fw.report_corr(ctx, "gauge", res, features)
